@@ -26,6 +26,8 @@ type Scenario struct {
 	Threads    []ThreadProg
 	FSYield    bool // every simfs call is a scheduling point
 	TrackRaces bool // happens-before race detection on simfs objects
+	// FailSegCreate n > 0: the n-th creation of a segment file after Open fails once with an I/O error (whoever makes it)
+	FailSegCreate int
 	// WrapFS: "" = simfs with its hook; "sim", "mem", "os", "osmmap" = the database runs on that file system behind a
 	// YieldFS wrapper (every file-system call is a scheduling point, the same on all four); Target names the directory.
 	WrapFS         string
@@ -63,7 +65,7 @@ func (sc *Scenario) JSON() map[string]interface{} {
 		ts = append(ts, w)
 	}
 	return map[string]interface{}{"name": sc.Name, "base": sc.Base, "cfg": sc.Cfg, "threads": ts, "fs_yield": sc.FSYield, "track_races": sc.TrackRaces,
-		"worker": sc.Worker, "tick_budget": sc.TickBudget, "bound": sc.Bound, "poison": sc.Poison, "quiet_pop": sc.QuietPop, "yield_seg": sc.YieldSeg, "yield_dir_only": sc.YieldDirOnly, "no_private_quiet": sc.NoPrivateQuiet, "unclean": sc.Unclean, "post_close": WordString(sc.PostClose), "wrap_fs": sc.WrapFS}
+		"worker": sc.Worker, "tick_budget": sc.TickBudget, "bound": sc.Bound, "poison": sc.Poison, "quiet_pop": sc.QuietPop, "yield_seg": sc.YieldSeg, "yield_dir_only": sc.YieldDirOnly, "no_private_quiet": sc.NoPrivateQuiet, "unclean": sc.Unclean, "post_close": WordString(sc.PostClose), "wrap_fs": sc.WrapFS, "fail_seg_create": sc.FailSegCreate}
 }
 
 // Event is one completed operation of a thread.
@@ -414,6 +416,9 @@ func RunScenario(sc *Scenario, base *Base, prefix []int, keepTrace bool, sleep .
 			return
 		}
 		s.DB = db
+		if sc.FailSegCreate > 0 {
+			s.FS.FailCreateSuffix, s.FS.FailCreateNth = refmodel.SegmentExt, sc.FailSegCreate
+		}
 		var fns []func()
 		for ti, prog := range sc.Threads {
 			ti, prog := ti, prog
